@@ -43,7 +43,7 @@ def run_env(name, here):
     b = BUILDS[name]
     env = {"IPA_VERIF_DIR": here}
     if b.get("miri"):
-        env["MIRIFLAGS"] = "-Zmiri-tree-borrows -Zmiri-disable-isolation"
+        env["MIRIFLAGS"] = "-Zmiri-tree-borrows -Zmiri-disable-isolation -Zmiri-ignore-leaks"
     return env
 
 
@@ -84,13 +84,15 @@ def build(name, repo, here):
             errors.append(m["message"].get("rendered", "")[:2000])
     if p.returncode != 0 or not exe:
         raise BuildError(f"cargo exit {p.returncode}\n" + "\n".join(errors[:6]) + "\n" + p.stderr[-3000:])
-    if b.get("miri"):
-        # miri test binaries are run through `cargo miri` runner
-        BUILDS[name]["wrapper"] = miri_wrapper(env)
     return exe, wall
 
 
-def miri_wrapper(env):
-    # `cargo miri test --no-run` builds; to run an already-built test we invoke the miri driver through cargo-miri's
-    # runner protocol: simplest robust route is `cargo +nightly miri test -- <args>`; handled in check via wrapper=[]
-    return []
+def miri_cmd(name, repo, here, test):
+    """Command + env that runs one test of the miri build through `cargo miri test` (the runner protocol of
+    cargo-miri is the only supported way to execute a miri-built test binary)."""
+    b = BUILDS[name]
+    cmd = ["cargo", "+nightly", "miri", "test", "-p", "ipa-core", "--lib", "--offline", "--features", b["features"],
+           "--", "--exact", test, "--test-threads", "1", "--nocapture"]
+    env = {"CARGO_TARGET_DIR": target_dir(name, here), "CARGO_NET_OFFLINE": "true"}
+    env.update(run_env(name, here))
+    return cmd, env
